@@ -11,6 +11,7 @@ import SkyllhModel.Generated.C11
 import SkyllhModel.Proofs.RealScalar
 import Mathlib.Tactic
 import Mathlib.Analysis.Convex.Deriv
+import Mathlib.Analysis.Calculus.Deriv.MeanValue
 import Mathlib.Analysis.Convex.Mul
 import Mathlib.Analysis.Calculus.Deriv.Pow
 
@@ -1325,6 +1326,44 @@ theorem c11_nr_converged_close {K : Type} [Field K] [LinearOrder K] [IsStrictOrd
   · have : o.xPrev + o.lastStep - o.xPrev = o.lastStep := by ring
     rw [this]
 
+/-- **stationary point within the configured tolerance** (D2 at the strength of the text, under a
+curvature bound): if `f'' ≥ m > 0` on the interval and `xs` is a stationary point of `f` in it, a flag-0
+result lies within `ns_tol + slope_threshold / m` of `xs`. -/
+theorem c11_nr_converged_near_stationary (c : NRCfg ℝ) (f f' f'' : ℝ → ℝ) (ns0 m xs : ℝ) (o : NROut ℝ)
+    (h : nr c (fun x => ⟨f x, f' x, f'' x⟩) ns0 = .ok o) (hb : c.nsMin ≤ c.nsMax) (h0 : ns0 ≤ c.nsMax)
+    (hd' : ∀ x, HasDerivAt f' (f'' x) x) (hm : 0 < m)
+    (hcurv : ∀ x ∈ Set.Icc c.nsMin c.nsMax, m ≤ f'' x)
+    (hxs : xs ∈ Set.Icc c.nsMin c.nsMax) (hstat : f' xs = 0) (hflag : o.flag = 0) (hn : 0 < o.niter) :
+    |o.x - xs| ≤ c.nsTol + c.slopeThr / m := by
+  set obj : ℝ → Eval ℝ := fun x => ⟨f x, f' x, f'' x⟩ with hobj
+  obtain ⟨_, _, hrest⟩ := c11_nr_converged_step_small c obj ns0 o h hb h0 hflag
+  obtain ⟨hin, _, _, _⟩ := hrest hn
+  have hpp : (obj o.xPrev).fpp ≠ 0 := ne_of_gt (lt_of_lt_of_le hm (hcurv o.xPrev hin))
+  obtain ⟨hclose, hslope, _⟩ := c11_nr_converged_close c obj ns0 o h hb h0 hflag hn hpp
+  have hslope' : |f' o.xPrev| ≤ c.slopeThr := hslope
+  -- mean value inequality for f' on the interval
+  have mvt : ∀ x ∈ Set.Icc c.nsMin c.nsMax, ∀ y ∈ Set.Icc c.nsMin c.nsMax, x ≤ y → m * (y - x) ≤ f' y - f' x :=
+    (convex_Icc c.nsMin c.nsMax).mul_sub_le_image_sub_of_le_deriv
+      (fun x _ => (hd' x).continuousAt.continuousWithinAt)
+      (fun x _ => (hd' x).differentiableAt.differentiableWithinAt)
+      (fun x hx => by rw [(hd' x).deriv]; exact hcurv x (interior_subset hx))
+  have hdist : |o.xPrev - xs| ≤ c.slopeThr / m := by
+    rw [le_div_iff₀ hm]
+    rcases le_total o.xPrev xs with hle | hle
+    · have := mvt o.xPrev hin xs hxs hle
+      rw [hstat] at this
+      rw [abs_of_nonpos (by linarith)]
+      have h2 := neg_abs_le (f' o.xPrev)
+      nlinarith
+    · have := mvt xs hxs o.xPrev hin hle
+      rw [hstat] at this
+      rw [abs_of_nonneg (by linarith)]
+      have h2 := le_abs_self (f' o.xPrev)
+      nlinarith
+  calc |o.x - xs| = |(o.x - o.xPrev) + (o.xPrev - xs)| := by ring_nf
+    _ ≤ |o.x - o.xPrev| + |o.xPrev - xs| := abs_add_le _ _
+    _ ≤ c.nsTol + c.slopeThr / m := add_le_add hclose hdist
+
 /-! ## non-vacuity: concrete inputs meeting the hypotheses -/
 
 namespace C11.Examples
@@ -1367,6 +1406,18 @@ example : ∀ k, (att k).x.length = [((0 : ℤ), (5 : ℤ)), (-4, 4)].length := 
   intro k; unfold att; split_ifs <;> rfl
 example : maximize (fun _ => ({ x := [1, 2], f := -3, converged := true, repeatable := false } : Attempt ℤ))
     100 [(0, 5), (-4, 4)] (fun x => x.sum) = .ok (3, [1, 2], 0) := rfl
+
+/-- an actual NR run over an ordered *field* (ℚ, the source's constants) meeting the hypotheses of
+`c11_nr_boundary_slope` / `c11_concave_ge_initial`: `(x+2)²` on `[0, 10]` from 3 ends at the lower bound, flag −2 -/
+example : ((nr ({ nsTol := 1/1000, slopeThr := 1/10, fp0 := 1000, maxSteps := 100, nsMin := 0, nsMax := 10 } : NRCfg ℚ)
+    (fun x => ⟨(x + 2) * (x + 2), 2 * (x + 2), 2⟩) 3).toOption.map (fun o => (o.flag, o.x))) = some (-2, 0) := by
+  decide +kernel
+/-- right-hand side of `c11_wrapper_error_iff` with `k = max_repetitions`: always failing, always repeatable -/
+example : ∃ e, wrapper (fun _ => ({ x := [1], f := 0, converged := false, repeatable := true } : Attempt ℤ)) 2
+    [(0, 5)] (fun x => x.sum) = .error e := ⟨_, rfl⟩
+/-- a converged attempt containing a NaN (`Float`, IEEE `==`) raises instead of being passed on -/
+example : (match wrapper (fun _ => ({ x := [0.0 / 0.0], f := 0, converged := true, repeatable := false } : Attempt Float)) 2
+    [(0.0, 5.0)] (fun _ => 0.0) with | .error _ => true | .ok _ => false) = true := by decide +kernel
 
 /-- a convex objective with derivative and positive curvature on an interval: `x²` on `[-1, 2]` -/
 example : ConvexOn ℝ (Set.Icc (-1 : ℝ) 2) (fun x => x ^ 2) ∧
